@@ -21,7 +21,7 @@ TableJ(T) == [k \in DOMAIN T.rows |-> [desc |-> DescJ(T.rows[k].desc), scores |-
 Usable(x) == ~EmptySelection(DsOfSmall(x), x.opt)
 Emit ==
   LET X == Context(Ds, gen.opt) IN
-  PrintT(ToJson([inputs |-> [j \in DOMAIN Ds.inputs |-> InputJson(Ds.inputs[j])], hasClim |-> FALSE, clim |-> InputJson(Ds.clim), climType |-> "subtract",
+  PrintT(ToJson([inputs |-> [j \in DOMAIN Ds.inputs |-> InputJson(Ds.inputs[j])], hasClim |-> Ds.hasClim, clim |-> InputJson(Ds.clim), climType |-> Ds.climType,
                  opts |-> OptJson(gen.opt), metric |-> m, axis |-> axis, legend |-> Legend, bt |-> "above", thresholds |-> <<3, 0, 2>>,
                  table |-> IF axis = "threshold" THEN TableJ(ThresholdTable(X, m, "above", ThsGiven, Legend)) ELSE TableJ(ScoreTable(Ds, X, m, axis, Cfg, FALSE, Legend)),
                  multi |-> IF axis # "threshold" /\ m \in {"ets", "hit", "n", "mae"}
